@@ -133,6 +133,8 @@ class ExprMixin:
             return len(v.items) > 0
         if isinstance(v, VRef) and self.classes.get(v.cls, {}).get("boxed_list"):
             raise Unsupported("truth value of a list object (its emptiness lives on the heap)")
+        if isinstance(v, VRef) and self.classes.get(v.cls, {}).get("boxed_valueset"):
+            raise Unsupported("truth value of a set object (its emptiness lives on the heap)")
         if isinstance(v, (VRef, VRec, VFunc, VChar)):
             return True
         if isinstance(v, VOpt):
@@ -801,6 +803,8 @@ class ExprMixin:
                     right = self.heap_read(st, right, self.classes[right.cls]["boxed_list"])  # `x in <list object>`: its content
                 if isinstance(op, (ast.In, ast.NotIn)) and isinstance(right, VRef) and self.classes.get(right.cls, {}).get("boxed_set"):
                     right = self.heap_read(st, right, self.classes[right.cls]["boxed_set"])  # `x in <set object>`: its current content
+                if isinstance(op, (ast.In, ast.NotIn)) and isinstance(right, VRef) and self.classes.get(right.cls, {}).get("boxed_valueset"):
+                    right = self.heap_read(st, right, self.classes[right.cls]["boxed_valueset"])  # set object kept as the list of its values: membership = list membership
                 if isinstance(op, ast.Lt) and isinstance(left, VRef) and isinstance(right, VRef) and not self.spec \
                         and self.resolve(f"{left.cls}.__lt__"):
                     c = self.truth(self.call_method(left, "__lt__", [right], {}, node, st))  # a < b is a.__lt__(b)
